@@ -1091,6 +1091,17 @@ int CBigComplexLinProb::PBCGSolveMod(int flag,bool verbose)
         //	return BiCGSTAB(flag);
         return KludgeSolve(flag);
 
+    // a zero right-hand side has the zero solution; the iterations below would divide by |b| = 0
+    {
+        bool zeroRhs=true;
+        for(int i=0; i<n; i++) if((b[i].re!=0) || (b[i].im!=0)) { zeroRhs=false; break; }
+        if(zeroRhs)
+        {
+            for(int i=0; i<n; i++) V[i]=0;
+            return 1;
+        }
+    }
+
     // Get starting point with a few iterations of CGNE;
     if(flag==false)
     {
